@@ -898,7 +898,9 @@ impl Program {
             }
         }
 
-        expanded_program.frames = self.frames.intersection(&frames_used);
+        // Expansion may have hoisted frame definitions out of calibration bodies.
+        let frames = expanded_program.frames.intersection(&frames_used);
+        expanded_program.frames = frames;
         expanded_program
             .waveforms
             .retain(|name, _definition| waveforms_used.contains(name));
